@@ -144,6 +144,33 @@ def run(ctx, prog):
                 bad.append((bb, a))
         ctx.inst('C20.R2', f.short, 'growth of %s only when present, not full, or after eviction' % field, bool(arr) and not bad,
                  ('the insert at %s is reached with %s' % (f.loc_of(bad[0][0]), bad[0][1])) if bad else '%d abstract arrivals at %d growing insert(s)' % (len(arr), len(set(grow))))
+        # the victim that leaves the map is the victim the LRU index named: the key handed to the removal (direct, or through a remover helper) is the value
+        # pop_lru returned, as it is — a key rebuilt from parts (another scope, another hash) removes nothing while the index has already forgotten the entry
+        if 'pop_lru' in pop_rx:
+            kk = 0
+            for c in f.calls:
+                if not c.callee or c.bb not in rms:
+                    continue
+                if c.bb not in (f.reach([x for x in pops]) if pops else set()):
+                    continue
+                karg = None
+                if re.search(rm_rx, c.callee) and len(c.args) > 1:
+                    karg = c.args[1]
+                else:
+                    g = prog.resolve_local(c.callee)
+                    if g is not None:
+                        # the helper's key parameter: the argument whose type is the map's key type
+                        for a in c.args[1:]:
+                            if a.get('k') in ('mv', 'cp'):
+                                karg = a
+                                break
+                if karg is None:
+                    continue
+                kr = flow.render(of.of_operand(karg))
+                okk = bool(re.match(r'^LruIndex::pop_lru\(.*\)@Some→Some\.0$', kr))
+                ctx.inst('C20.R2', f.short, 'eviction #%d removes the key pop_lru returned, as it is' % kk, okk,
+                         'removal key = %s%s' % (kr[:120], '' if okk else ' — not the popped key itself: when it differs (another scope) nothing is removed and the map grows past its capacity'))
+                kk += 1
     ti = ctx.body('C20.R2', 'TieredEngine::insert')
     util.bind_role(ti, 'current_size', type_rx=r'^usize$', assigned_from=r'HotTier::len')
     ov = flow.Origin(ti, stop_at_vars=True)
